@@ -182,7 +182,7 @@ func genCase(t *rapid.T) Case {
 				sp.Sort = append(sp.Sort, models.SortOption{Property: rapid.SampledFrom(cands).Draw(t, fmt.Sprintf("sortp%d.%d", i, j)), Descending: rapid.Bool().Draw(t, fmt.Sprintf("sortd%d.%d", i, j))})
 			}
 		}
-		sp.Offset = rapid.SampledFrom([]int{0, 0, 1, 2, 5, 50}).Draw(t, fmt.Sprintf("off%d", i))
+		sp.Offset = rapid.SampledFrom([]int{0, 0, 1, 2, 5, 50, 0, 0, 1, 2, 5, 50, 1 << 40, math.MaxInt64 - 3, math.MaxInt64}).Draw(t, fmt.Sprintf("off%d", i))
 		sp.Limit = rapid.SampledFrom([]int{0, 1, 2, 3, 7, 100}).Draw(t, fmt.Sprintf("lim%d", i))
 		c.Specs = append(c.Specs, sp)
 	}
@@ -487,7 +487,7 @@ func execCase(c Case) (res vt.Result) {
 		lo := min(sp.Offset, len(sorted))
 		hi := len(sorted)
 		if sp.Limit > 0 {
-			hi = min(sp.Offset+sp.Limit, len(sorted))
+			hi = lo + min(sp.Limit, len(sorted)-lo) // (offset + limit can overflow)
 		}
 		if len(paged) != hi-lo {
 			return fail("paged request returned %d rows, rows [%d,%d) of %d were expected", len(paged), lo, hi, len(sorted))
